@@ -495,6 +495,13 @@ func (b *stepBuilder) buildStep(
 		}
 	}
 
+	// The step must have something to execute: 'command: []', 'command: [""]'
+	// or 'executor: ""' pass the nil checks above but define nothing.
+	if step.Command == "" && step.CmdWithArgs == "" && step.Script == "" &&
+		step.ExecutorConfig.Type == "" && step.SubWorkflow == nil {
+		return nil, errStepCommandIsEmpty
+	}
+
 	return step, nil
 }
 
